@@ -403,6 +403,8 @@ class LinuxEnvironment(object):
     # Memory mapping information
     brk_current = 0x74000000
     mmap_current = 0x75000000
+    # Memory mapped by brk itself (interval), None until the first request
+    brk_owned = None
 
     # System information
     sys_sysname = b"Linux"
@@ -604,6 +606,10 @@ class LinuxEnvironment(object):
         if flags & MAP_FIXED:
             # Alloc missing and override
             missing = interval([(addr, addr + len_ - 1)]) - mapped
+            if self.brk_owned is not None:
+                # Memory released by a shrunk data segment and mapped again
+                # here does not belong to brk anymore
+                self.brk_owned = self.brk_owned - interval([(addr, addr + len_ - 1)])
             for start, stop in missing:
                 vmmngr.add_memory_page(
                     start,
@@ -660,8 +666,18 @@ class LinuxEnvironment(object):
                 ]
             )
 
-            # Alloc missing and override
-            missing = interval([(self.brk_current, addr)]) - mapped
+            if self.brk_owned is None:
+                self.brk_owned = interval()
+            if addr > self.brk_current:
+                # Like Linux, refuse to grow the data segment through a
+                # mapping which is not its own: the break is left unchanged
+                crossed = interval([(self.brk_current, addr - 1)]) & mapped
+                if not (crossed - self.brk_owned).empty:
+                    return self.brk_current
+
+            # Alloc missing and override; the break itself is the first byte
+            # which does not belong to the data segment
+            missing = interval([(self.brk_current, addr - 1)]) - mapped
             for start, stop in missing:
                 vmmngr.add_memory_page(
                     start,
@@ -669,6 +685,7 @@ class LinuxEnvironment(object):
                     b"\x00" * (stop - start + 1),
                     "BRK"
                 )
+            self.brk_owned = self.brk_owned + missing
 
             self.brk_current = addr
         return addr
